@@ -14,7 +14,7 @@ def suffixOf (n : Nat) : String := "inline" ++ toString n
 def renameLine (n : Nat) : Line → Line
   | .label l => .label (l ++ suffixOf n)
   | .instr i =>
-    if i.mn.isRenamed then .instr { i with opd := i.opd ++ suffixOf n, prot := false } else .instr i
+    if i.mn.isRenamed then .instr { i with opd := i.opd ++ suffixOf n } else .instr i
   | l => l
 
 /-- `caller.append_code(&callee, n)` -/
